@@ -66,10 +66,11 @@ type GenOpts struct {
 	LongNames                                        bool
 	Gitlinks                                         bool
 	Bomb                                             bool
+	Symrefs                                          bool // a symbolic reference such as refs/remotes/origin/HEAD
 }
 
 var DefaultGen = GenOpts{MaxBlobs: 8, MaxTrees: 10, MaxCommits: 10, MaxTags: 5, MaxRefs: 8, MaxEntries: 5,
-	NameStyle: 1, Octopus: true, ExtraHeaders: true, NonCommitRefs: true, Gitlinks: true}
+	NameStyle: 1, Octopus: true, ExtraHeaders: true, NonCommitRefs: true, Gitlinks: true, Symrefs: true}
 
 var plainNames = []string{"a", "b", "c", "d", "e", "f", "dir", "src", "lib", "x.txt", "README", "main.go", "z", "ab", "abc", "a.b", "a-b", "a_b", "0", "longer-file-name.ext"}
 var hostileNames = []string{"a b", " lead", "trail ", "q\"uote", "it's", "back\\slash", "co:lon", "[1]", "[2] x", "tab\there", "new\nline", "cr\rx", "\x01ctl", "\x7f", "\xff\xfe", "caf\xc3\xa9", "*", "?", "|pipe", "$(x)", "`x`", "~", "^", "@{", "-dash", "--include", "..x", "x..", "a\\", "{}", "<>", "&", ";", "#", "%s", "%d", "\xe2\x88\x9e", ".gitmodules", "x]", "(p)", "^{tree}", "~1"}
@@ -406,6 +407,16 @@ func GenWorld(g G, o GenOpts) *World {
 		}
 		usedRef[name] = true
 		w.Refs = append(w.Refs, Ref{Name: name, OID: target.ID})
+	}
+
+	// a symbolic reference, as every clone has in refs/remotes/origin/HEAD
+	if o.Symrefs && len(w.Refs) > 0 && g.Chance(1, 3, "symref") {
+		t := w.Refs[g.Pick(len(w.Refs), "symtarget")]
+		name := g.PickStr([]string{"refs/remotes/origin/HEAD", "refs/remotes/up/HEAD", "refs/heads/alias", "refs/tags/latest"}, "symname")
+		if !refConflicts(usedRef, name) && t.Symref == "" {
+			usedRef[name] = true
+			w.Refs = append(w.Refs, Ref{Name: name, OID: t.OID, Symref: t.Name})
+		}
 	}
 
 	// HEAD
